@@ -60,7 +60,7 @@ def gen_case(rng, tier, i):
 
 
 def gen(tier, rng):
-    n = 90 if tier == 'quick' else 900
+    n = 90 if tier == 'quick' else 300
     return [gen_case(rng, tier, i) for i in range(n)]
 
 
@@ -101,7 +101,7 @@ def run_parallel(cases, wd, tag):
     jobs = max(1, min(core.NCPU, 8, len(cases)))
     chunks = [cases[j::jobs] for j in range(jobs)]
     with cf.ThreadPoolExecutor(max_workers=jobs) as ex:
-        futs = [ex.submit(run_impl, IMPL, ch, wd, '%s%d' % (tag, j), 1700, 1) for j, ch in enumerate(chunks)]
+        futs = [ex.submit(run_impl, IMPL, ch, wd, '%s%d' % (tag, j), 1100, 1) for j, ch in enumerate(chunks)]
         outs = [f.result() for f in futs]
     if any(o[0] is None for o in outs):
         return None, '\n'.join(o[1] for o in outs)
